@@ -39,6 +39,7 @@ import (
 	"github.com/sirupsen/logrus"
 	"google.golang.org/grpc"
 	"google.golang.org/grpc/codes"
+	"google.golang.org/grpc/connectivity"
 	"google.golang.org/grpc/metadata"
 	"google.golang.org/grpc/status"
 
@@ -698,6 +699,12 @@ func (s *Sim) dialOptions(c *cluster.Conn) []grpc.DialOption {
 			return nil, fmt.Errorf("simulated network: no sockets")
 		}),
 		grpc.WithUnaryInterceptor(func(ctx context.Context, method string, req, reply interface{}, cc *grpc.ClientConn, invoker grpc.UnaryInvoker, opts ...grpc.CallOption) error {
+			if cc.GetState() == connectivity.Shutdown {
+				// what gRPC answers on a connection object that was closed (Conn.RemoveNode
+				// closes the connection of a removed node; whoever kept a stub of it gets this)
+				s.out.Stat("rpc_on_closed_connection", 1)
+				return status.Error(codes.Canceled, "grpc: the client connection is closing")
+			}
 			call := s.newCall(ctx, from, cc.Target(), method, req.(proto.Message), false)
 			if err := s.await(ctx, call); err != nil {
 				return err
@@ -708,6 +715,10 @@ func (s *Sim) dialOptions(c *cluster.Conn) []grpc.DialOption {
 			return proto.Unmarshal(call.resp[0], reply.(proto.Message))
 		}),
 		grpc.WithStreamInterceptor(func(ctx context.Context, desc *grpc.StreamDesc, cc *grpc.ClientConn, method string, streamer grpc.Streamer, opts ...grpc.CallOption) (grpc.ClientStream, error) {
+			if cc.GetState() == connectivity.Shutdown {
+				s.out.Stat("rpc_on_closed_connection", 1)
+				return nil, status.Error(codes.Canceled, "grpc: the client connection is closing")
+			}
 			return &simClientStream{s: s, ctx: ctx, from: from, target: cc.Target(), method: method}, nil
 		}),
 	}
@@ -978,6 +989,9 @@ func (s *Sim) route(c *simCall) {
 		s.at(s.latency(), "fail", func() { s.finish(c, nil, status.Error(code, "simulated network: "+why)) })
 	}
 	if tgt == nil {
+		if os.Getenv("VERIF_DEBUG") == "2" {
+			s.logf("#%d n%d -> %s: no such address", c.seq, s.nodeIdx(c.from), c.toAddr)
+		}
 		fail(codes.Unavailable, "no such address "+c.toAddr)
 		s.out.Stat("net_unknown_address", 1)
 		return
